@@ -2,7 +2,8 @@
 NOT_APPLICABLE = {}
 NOTE = ("Trusted base: go/packages, go/types and go/cfg of golang.org/x/tools v0.29.0; the rule tables in checker/rules (each instance confirmed by reading the code); "
         "no pointer analysis (guarded structures are assumed to be reached through their owning receiver); facts established by a branch are assumed not to be invalidated by a later re-assignment of the tested variable. "
-        "Decides the structural clauses listed in the evidence file's coverage.explanation; does not decide coverage.not_decided.")
+        "Decides the structural clauses listed in the evidence file's coverage.explanation; does not decide coverage.not_decided. "
+        "The complete current list of rules with their statements and instance counts is in /verif/RULES.md and in coverage.rules of the evidence file.")
 
 claim("C01", "CFG path rules (dominance, for-all loops), ownership/who-may-call, call-site argument agreement",
       "Structural necessary conditions of address exclusivity decided on all paths of the current source: who may write the sharing bookkeeping, checkSharing before assign for every stored address, the shape of checkSharing/sharingOK/BackendKey, argument agreement at the five controller call sites, re-sync after a key change. Not a proof of the behavioural statement over histories.",
